@@ -20,7 +20,7 @@
     entry writers satisfy [writer_ok] (proved for the fresh bowl below; for the overlay entry
     writer this is C14's "sessions" statement); [ReadContext.Resume] restarts at the reader
     offset of the checkpoint (C13). *)
-From Wharf Require Import Base.Prelude Patch.Resume Patch.ResumeProofs Patch.ResumeLive Patch.PlainWriter Patch.OverlayBowl Patch.ResumeExample.
+From Wharf Require Import Base.Prelude Patch.Resume Patch.ResumeProofs Patch.ResumeLive Patch.PlainWriter Patch.OverlayBowl Patch.FreshLater Patch.ResumeExample.
 
 (** Safety, any bowl whose entry writers satisfy the contract: resuming from any offered
     checkpoint on any crash disk, under any save consumer of the resumed run, either completes
@@ -187,6 +187,24 @@ Theorem resume_equiv_fresh :
     end.
 Proof. exact resume_equiv_fresh_lemma. Qed.
 Print Assumptions resume_equiv_fresh.
+
+(** The crash model is not vacuous and contains what the property calls "stopping there or
+    crashing any time later": along any run of fresh application ([reach]: any number of
+    further steps, incl. the step that stops), the disk of that later moment is a legitimate
+    crash disk ([fresh_crash]) for every checkpoint offered up to then - writes made after the
+    checkpoint being wholly on disk; partly written or torn ones are covered by [fresh_crash]
+    constraining nothing at or after the checkpointed offset. *)
+Theorem crash_model_contains_later_states :
+  forall (blocksize : N) (tsize ssize : N -> N) (old : N -> list byte)
+         (range_data : N -> N -> N -> list byte) (bs_data : N -> Z -> list byte -> list byte -> list byte)
+         (is_overlay : N -> bool) (emit sched stop : nat -> bool)
+         (d0 : N -> list byte) (ms : list (msg (list byte))) (s : state (list byte) N unit)
+         (ck : ckpt unit) (d : N -> list byte),
+    reach blocksize tsize ssize old range_data bs_data is_overlay emit sched stop (fresh_start ssize d0) ms s ->
+    In (ck, d) (s_offers (list byte) N unit s) ->
+    fresh_crash ck d (s_disk (list byte) N unit s).
+Proof. exact later_states_in_crash_model. Qed.
+Print Assumptions crash_model_contains_later_states.
 
 (** Liveness for a source that serves a pending request at its next read (the seek source)
     and a consumer that always asks to save: of any two consecutive iterations of a relay
